@@ -212,6 +212,11 @@ func (d *Do) appendParameterBeforeTypeCalculate(
 
 	case base.UNIFY_ARGUMENT:
 		tmpArgTs := p.GetTmpEvaluaetdArgs()
+		if len(tmpArgTs) == 0 {
+			blockParamaters = append(blockParamaters, *base.MakeUntyped())
+			return blockParamaters
+		}
+
 		blockParamaters = append(blockParamaters, *tmpArgTs[0].UnifyVariants())
 		return blockParamaters
 
